@@ -245,9 +245,18 @@ pub fn read(ctx: &Ctx, op: &Op) -> (String, i64, Value) {
                     Cont::Sel(s) => s.textselection(&off).ok(),
                     Cont::None => None,
                 };
+                let tbo: Option<Vec<i64>> = match container(store, &a["c"], style) {
+                    Cont::Res(r) => r.text_by_offset(&off).ok().map(codes_of),
+                    Cont::Sel(s) => s.text_by_offset(&off).ok().map(codes_of),
+                    Cont::None => None,
+                };
+                let (tbook, tbo) = match tbo {
+                    Some(t) => (true, t),
+                    None => (false, vec![]),
+                };
                 match res {
-                    Some(ts) => (0, json!({"ok": true, "b": ts.begin(), "e": ts.end(), "text": codes_of(ts.text())})),
-                    None => (0, json!({"ok": false, "b": 0, "e": 0, "text": []})),
+                    Some(ts) => (0, json!({"ok": true, "b": ts.begin(), "e": ts.end(), "text": codes_of(ts.text()), "tbook": tbook, "tbo": tbo})),
+                    None => (0, json!({"ok": false, "b": 0, "e": 0, "text": [], "tbook": tbook, "tbo": tbo})),
                 }
             }
             "AnnTextOf" => match store.annotation(bi::<Annotation>(&rf(&a["ann"]), style)) {
